@@ -157,6 +157,7 @@ type Exec struct {
 	poisonOnce sync.Once
 	Poisoned   atomic.Bool
 	dummies    []interface{} // pointers handed out by PoisonPtr
+	late       []string
 }
 
 // SetPoison registers the assignments that overwrite the argument variables of
@@ -174,6 +175,20 @@ func (x *Exec) runPoison() {
 			x.Poisoned.Store(true)
 		})
 	}
+}
+
+// NoteLate records evidence, gathered by the program itself after the
+// directive returned, that an argument was evaluated late.
+func (x *Exec) NoteLate(msg string) {
+	x.mu.Lock()
+	x.late = append(x.late, msg)
+	x.mu.Unlock()
+}
+
+func (x *Exec) LateNotes() []string {
+	x.mu.Lock()
+	defer x.mu.Unlock()
+	return append([]string(nil), x.late...)
 }
 
 // Poison returns the poison token of an argument site.
